@@ -1,7 +1,7 @@
 (* C09_Props.v — the property theorems of C09 and nothing else.
    Each is closed by `exact <lemma>` and followed by Print Assumptions. *)
 From Coq Require Import Lia.
-From V Require Import C09_Spec C09_Proofs C09_ProofsW C09_ProofsJ C09_ProofsS C09_ProofsC C09_ProofsL.
+From V Require Import C09_Spec C09_Proofs C09_ProofsW C09_ProofsJ C09_ProofsS C09_ProofsC C09_ProofsL C09_ProofsG.
 Open Scope N_scope.
 
 (* Chunking never matters: for EVERY byte string, read schedule, error-delivery mode and
@@ -292,6 +292,54 @@ Theorem fresh_decoder_one_read_loses_all_but_first : forall v vs,
 Proof. exact fresh_decoder_one_read_proof. Qed.
 Print Assumptions fresh_decoder_one_read_loses_all_but_first.
 
+(* ---------- the gRPC reference peers ----------
+   grpcclient.RunWithTrace has the loop of referenceclient.run (decoder created ONCE per stream, DecodeNext
+   until io.EOF), grpcserver.RunWithTrace reads its one request with one decoder: the kinds c09.grpcclient /
+   c09.grpcserver are decided by the SAME model functions as c09.client / c09.server, so every theorem above
+   about peer_loop / peer_first (any chunking, answers all, cut, refuted decoder-per-request variant) is a
+   statement about what those kinds compare the gRPC peers with. *)
+Theorem grpc_peers_run_the_same_loops :
+  In (bs "c09.grpcclient", run_c09_client) c09_table /\ In (bs "c09.client", run_c09_client) c09_table /\
+  In (bs "c09.grpcserver", run_c09_server) c09_table /\ In (bs "c09.server", run_c09_server) c09_table.
+Proof. exact grpc_peers_run_the_same_loops_proof. Qed.
+Print Assumptions grpc_peers_run_the_same_loops.
+
+(* ---------- the runner's wiring of the two limits ----------
+   reader_limit is the table "which reader hands which regenerated constant to ReadDelimitedMessage"
+   (ReadsClientOutput = clientProcessRunner.consumeOutput, ReadsServerResponse = runTestCasesForServer);
+   documented_limit is the specification (16 MB for a client's output, 1 MB for a server's response).
+   Each reader rejects EXACTLY the announcements above ITS documented limit, at the prefix: the whole body
+   is left unread and the only buffer made is the 4-byte prefix buffer; every announcement up to the limit
+   is taken (two buffers: 4 and size; a complete body comes back as the message) - for every body,
+   schedule, error-delivery mode and ending. *)
+Theorem limits_wired : forall r size body sch eg t,
+  size < 4294967296 ->
+  let s := mk_src (be32 size ++ body) sch eg t in
+  (documented_limit r < size ->
+     (exists sch', reader_read r s = MErr MOversize (mk_src body sch' eg t)) /\ reader_bufs r s = [4]) /\
+  (size <= documented_limit r ->
+     (forall s', reader_read r s <> MErr MOversize s') /\ reader_bufs r s = [4; size] /\
+     (size <= N.of_nat (length body) ->
+        exists sch', reader_read r s =
+          Msg (firstn (N.to_nat size) body) (mk_src (skipn (N.to_nat size) body) sch' eg t))).
+Proof. exact limits_wired_proof. Qed.
+Print Assumptions limits_wired.
+
+(* the closed form run_c09_limits evaluates (kind c09.limits: announcements of up to 4 GiB without building
+   a body) IS the reader, for every body of avail <= size bytes ending in EOF or an I/O error *)
+Theorem limits_closed_form : forall r size body sch eg t,
+  size < 4294967296 -> N.of_nat (length body) <= size -> t <> TBlock ->
+  let s := mk_src (be32 size ++ body) sch eg t in
+  let avail := N.of_nat (length body) in
+  rm_class (reader_read r s) =
+    Some (limit_verdict r size avail,
+          match limit_verdict r size avail with
+          | LvShort => Some (match t with TFail => MIO | _ => MUnexpected end)
+          | _ => None end) /\
+  reader_bufs r s = limit_bufs r size.
+Proof. exact limits_closed_form_proof. Qed.
+Print Assumptions limits_closed_form.
+
 (* the constants regenerated from the compiled code satisfy the theorems' hypotheses *)
 Theorem real_constants :
   c09_prefix_len = 4 /\ c09_prefix_of_258 = be32 258 /\
@@ -383,3 +431,16 @@ Example ex_server_request :
   peer_first jscan false (mk_src [0; 0; 0; 2; 16] [1; 1; 2]%nat true TEOF) = FirstStop StopUnexpected /\
   peer_first jscan false (mk_src [] [] true TEOF) = FirstStop StopEOF.
 Proof. vm_compute. repeat split; reflexivity. Qed.
+
+(* the two readers differ exactly on the announcements between the two limits: 2 MB is a client response
+   the runner takes and a server response it refuses at the prefix; both sides of limits_wired occur *)
+Example ex_limits_between :
+  limit_verdict ReadsClientOutput 2097152 0 = LvShort /\ limit_verdict ReadsServerResponse 2097152 0 = LvOversize /\
+  limit_verdict ReadsServerResponse 1048576 1048576 = LvMsg /\ limit_verdict ReadsServerResponse 1048577 1048577 = LvOversize /\
+  limit_verdict ReadsClientOutput 16777216 16777216 = LvMsg /\ limit_verdict ReadsClientOutput 16777217 16777217 = LvOversize /\
+  documented_limit ReadsServerResponse < 2097152 <= documented_limit ReadsClientOutput.
+Proof. vm_compute. repeat split; try reflexivity; discriminate. Qed.
+Example ex_limits_run :
+  run_c09_limits [I 0%Z; I 1048577%Z; I 0%Z; L []; I 0%Z] = L [B (bs "oversize"); I 0%Z; I 4%Z] /\
+  run_c09_limits [I 1%Z; I 1048577%Z; I 0%Z; L []; I 0%Z] = L [B (bs "unexpected-eof"); I 0%Z; I 1048577%Z].
+Proof. vm_compute. split; reflexivity. Qed.
